@@ -155,6 +155,30 @@ def check(ctx, rep):
     hooked = [p for p in ps if any(q.call_name(e) == "register" for e in p.calls())]
     rep.ob("R-REFS-EVENT", "get_event has a path installing the exit hook", bool(hooked), "atexit registration of on_exiting not found", where_of(ge))
 
+    # ---- a finished future wakes the timeout thread, so that its job (future, delegate future) is dropped now and
+    # not when its deadline comes round
+    tex = prog.cls("TimeoutExecutor")
+    tloops = [l for l in loops if l.owner is tex]
+    rep.require(len(tloops) == 1, "TimeoutExecutor: worker loop not found")
+    tli = tloops[0]
+    st = tex.methods.get("submit_timeout") or tex.methods.get("submit")
+    ps, it = ctx.paths(st, tex, depth=1, inline=lambda callee, ev, path: callee.owner is tex)
+    nsub = 0
+    for p in ps:
+        if p.status != "return":
+            continue
+        nsub += 1
+        woke = []
+        for e in p.calls():
+            if q.call_name(e) == "add_done_callback" and q.recv(e) == p.value and e.d["args"]:
+                tm, _b = roles.callback_target(ctx, tex, p, it, e.d["args"][0])
+                if tm is not None:
+                    ps2, it2 = ctx.paths(tm, tex, depth=2, inline=lambda callee, ev, path: callee.owner is tex)
+                    if ps2 and all(any(q.call_name(c) == "set" and q.recv(c) == ("attr", SELF, tli.event_field) for c in p2.calls()) for p2 in ps2 if p2.status == "return"):
+                        woke.append(e)
+        rep.ob("R-REFS-JOBS", "TimeoutExecutor: a finished future wakes the timeout thread", bool(woke), "no done-callback on the returned future sets the timeout thread's event: the job of a future that finishes early (with its delegate future and result) stays in the executor's list until its deadline passes", where_of(st), trace_of(p))
+    rep.require(nsub >= 1, "TimeoutExecutor.submit_timeout: no returning path")
+
     # ---- R-REFS-FUTURE
     fut = prog.cls("_Future")
     nf = 0
